@@ -39,7 +39,7 @@ class Decl:
         else:
             if self.type == "character(len=*)" or r.random() < 0.25:
                 if self.type.startswith(("integer", "real", "double")):
-                    attrs.append("parameter"); self.value = r.choice(["3", "42", "2*3", "selected_real_kind(15, 307)", "max(1, 2)"]) if self.type.startswith("integer") else r.choice(["1.0", "2.5e0", "real(3)"])
+                    attrs.append("parameter"); self.value = r.choice(["3", "42", "2*3", "selected_real_kind(15, 307)", "max(1, 2)", "2*(3+4)", "(1 + (2*3))", "size([1, 2, 3])"]) if self.type.startswith("integer") else r.choice(["1.0", "2.5e0", "real(3)", "real(max(1, 2))*2.0"])
                 elif self.type.startswith("character"):
                     attrs.append("parameter"); self.value = r.choice(['"x y"', "'a!b'", '"it''s"'.replace("''", "")])
                 elif self.type == "logical":
@@ -287,8 +287,6 @@ def check_oracle(ctx, n):
                 ctx.count(("hover", text, d.name), d.doc is not None or bool(d.attrs))
                 if prob:
                     sig = "C11:hover-decl"
-                    if prob.startswith("value") and d.value and "(" in d.value:
-                        sig = "C11:parameter-value-truncated"
                     if prob.startswith("documentation") and d.doc_kind.startswith("before") and any(x.doc_kind.startswith("after") for x in m.decls):
                         sig = "C11:hover-doc"
                     elif prob.startswith("documentation"):
